@@ -101,7 +101,7 @@ PROPS = {
              "disjunction path it satisfies; non-trivial = >1 solution or >=1 answer; distinct = distinct case lines",
         trusted=SEARCH_TRUST,
         assumptions=[],
-        open=["distinctfd on an OPEN-TAILED list (the tail variable is taken for an element) is outside the global exactness theorems (CstOK requires a proper list term)", "the `onceo` over the hidden variables: PROVED on the engine (C17_hidden_onceo, Props/C17Enforce.lean: at most one state, a closed one when the labelled state has a solution, none when it has none; hypothesis: the peek fuel lets the labelling drain); the composition of program + labelling of the query term + this `onceo` + reification into ONE end-to-end statement about `queryG`, and tree disequalities mixed into FD states, are carried by the correspondence"],
+        open=["distinctfd on an OPEN-TAILED list (the tail variable is taken for an element) is outside the global exactness theorems (CstOK requires a proper list term)", "the `onceo` over the hidden variables: PROVED on the engine (C17_hidden_onceo, Props/C17Enforce.lean: at most one state, a closed one when the labelled state has a solution, none when it has none; hypothesis: the peek fuel lets the labelling drain); the whole of enforce_constraints_fd on the engine: PROVED (C17_enforce_exactly_once: one closed state per block of the query-term labelling that has a solution, none for the others); reification of FD answers, the `fresh(__query__)` wrapper and tree disequalities mixed into FD states are carried by the correspondence"],
     ),
     "C19": dict(
         title="CLP(Z) plusz/timesz",
